@@ -189,7 +189,7 @@ class Tree:
                 self.moved.append(f"{k} -> {best} ({score:.2f})")
 
     def _normalise_bodies(self):
-        from .normalise import inline_aliases, loops_to_comprehensions, positive_ifexps, unroll_literal_loops, updates_to_loops, inline_single_use_temps, forward_attr_stores, searches_to_loops, genexp_loops, split_webs, ifexp_to_if, default_none_gets, while_true_breaks, integer_attributes, explicit_to_augmented
+        from .normalise import inline_aliases, loops_to_comprehensions, positive_ifexps, unroll_literal_loops, updates_to_loops, inline_single_use_temps, forward_attr_stores, searches_to_loops, genexp_loops, split_webs, ifexp_to_if, default_none_gets, while_true_breaks, integer_attributes, explicit_to_augmented, hoist_walrus
 
         self.normalised: List[str] = []
         int_attrs = integer_attributes([m.tree for m in self.modules.values() if not m.is_test()])
@@ -198,6 +198,7 @@ class Tree:
                 continue
             default_none_gets(f.node)
             explicit_to_augmented(f.node, int_attrs)
+            hoist_walrus(f.node)
             while_true_breaks(f.node)
             positive_ifexps(f.node)
             inline_single_use_temps(f.node)
